@@ -19,4 +19,16 @@ func init() {
 		explanation: "Decides the structural clauses behind the byte-log behaviour of the single-file and multi-file appendables: lock pairing and lockset of their mutable state, flush-before-fsync/close/read-only ordering, seek-before-write and the file-position typestate (seekRequired), offset captured before the write, chunk rotation order and its guard, SetOffset rewind discipline and the chunk-discard guard. It does NOT decide refinement of the byte-array model for arbitrary operation sequences.",
 		assumptions: []string{"os.File semantics", "lower-case helpers are only entered with the mutex held (checked at every call site)"},
 	})
+	register("C14", &propDef{
+		patterns: []string{"./embedded/store", "./embedded/appendable/...", "./embedded/tbtree", "./pkg/database", "./pkg/truncator"},
+		run:      c14,
+		explanation: "Decides the structural clauses behind safe value-log truncation: lock pairing in the store (a leaked value-buffer mutex in ExportTx blocks every later export), value logs always released, DiscardUpto only on fetched value logs / the index's own logs and never with embedded values, chunk deletion strictly below the offset's chunk, catalog copy before truncation through a single entry point, and truncated values mapping to io.EOF / digest export. It does NOT decide the tombstone arithmetic of TruncateUptoTx (value-dependent).",
+		assumptions: []string{"decodeOffset/encodeOffset agree (checked under C15)"},
+	})
+	register("C10", &propDef{
+		patterns: []string{"./embedded/tbtree"},
+		run:      c10,
+		explanation: "Decides the structural clauses behind snapshot immutability of the timed B-tree: copy-on-write discipline (every write to a logical node field is on a freshly allocated node, on the receiver of an in-place mutator whose call sites are all on private nodes, under a mutated()==true guard, or under commitLog in writeTo), lock pairing and lockset of tree and snapshot state, snapshots pinned to flushed roots and registered before return, discard bounded by open snapshots, and the flush ordering shared with C03. It does NOT decide equivalence with the abstract multi-version map.",
+		assumptions: []string{"node objects are only reachable through the fields listed in the COW table"},
+	})
 }
